@@ -304,6 +304,10 @@ impl PointerValue {
     pub fn slice(&self, pcx: &ParseContext, left: Option<usize>, right: usize) -> Option<Value> {
         let target_type = self.target_type?;
         let deref_size = pcx.type_graph.type_size_in_bytes(pcx.evcx, target_type)? as usize;
+        if deref_size == 0 {
+            // a pointer to a zero-sized type addresses no elements (and `chunks(0)` panics)
+            return None;
+        }
 
         self.value.and_then(|ptr| {
             let left = left.unwrap_or_default();
